@@ -1,161 +1,15 @@
-(* The cells produced by the io::Write adapters do not depend on how the bytes are split
-   across write calls.  The only way a split can be observed at all is the early return
-   of `write` after a put that reported "out of space"; at that point the cursor is below
-   the last row of the view (or the view has no column) and nothing can be written any
-   more, so the backing slice is the same whatever happens to the dropped bytes. *)
+(* The io::Write adapters do not depend on how the bytes are split across write calls: a
+   sequence of writes (by a caller that gives up at the first Err) is the single write of the
+   concatenated bytes -- same slice, same writer state (cursor, size, face, decoder), same
+   result.  For the UTF-8 adapters this is write_bytes_app; for the escape-sequence adapter it
+   rests on WriterTty.tty_write_fold (the per-call decode loop with its lazily re-parsed
+   rescheduled bytes is a fold over the bytes). *)
 From Coq Require Import List Arith Bool NArith ZArith Lia.
-From SNT Require Import Base.Outcome Surface.Bounds Surface.Shape Render.CellLayout Render.Writer Render.WriterFrame.
+From SNT Require Import Base.Outcome Surface.Bounds Surface.Shape Render.CellLayout Render.Writer Render.TokFuel
+  Render.WriterTty Render.WriterFrame.
 Import ListNotations.
 
-(* nothing can be written any more *)
-Definition Dead (st : wstate) : Prop :=
-  sh_width (w_sh st) = 0 \/ sh_height (w_sh st) <= l_r (w_l st).
-
-(* same slice, and the same writer unless both are dead *)
-Definition Sim (a b : wstate) : Prop :=
-  a = b \/ (Dead a /\ Dead b /\ w_data a = w_data b /\ w_sh a = w_sh b).
-
-Lemma sim_refl a : Sim a a.
-Proof. now left. Qed.
-
-Lemma sim_data a b : Sim a b -> w_data a = w_data b.
-Proof. intros [->|(_ & _ & H & _)]; auto. Qed.
-
-Lemma sim_alive a b : Sim a b -> ~ Dead a -> a = b.
-Proof. intros [->|(H & _)]; tauto. Qed.
-
-(* ---------- Cell::layout: rows never decrease; a handed-out position is on the new
-   cursor row and left of the right edge (or in column 0) ---------- *)
-Lemma layout_step_rows maxw wr s c s' p : layout_step maxw wr s c = (s', p) -> l_r s <= l_r s'.
-Proof.
-  unfold layout_step. destruct c as [| | |h w].
-  - intros [= <- _]. cbn. lia.
-  - intros [= <- _]. cbn. lia.
-  - intros [= <- _]. cbn. lia.
-  - destruct ((h =? 0) || (w =? 0)); [intros [= <- _]; lia|].
-    destruct (l_c s + w <=? maxw); [intros [= <- _]; cbn; lia|].
-    destruct (negb wr); intros [= <- _]; cbn; lia.
-Qed.
-
-Lemma layout_step_pos maxw wr s c s' r cc : layout_step maxw wr s c = (s', Some (r, cc)) ->
-  r = l_r s' /\ (cc < maxw \/ cc = 0).
-Proof.
-  unfold layout_step. destruct c as [| | |h w]; try discriminate.
-  destruct ((h =? 0) || (w =? 0)) eqn:Hz; [discriminate|].
-  apply orb_false_iff in Hz as [_ Hw]. apply Nat.eqb_neq in Hw.
-  destruct (l_c s + w <=? maxw) eqn:Hfit.
-  - intros [= <- <- <-]. cbn. apply Nat.leb_le in Hfit. split; auto. left. lia.
-  - destruct (negb wr); [discriminate|]. intros [= <- <- <-]. cbn. auto.
-Qed.
-
-(* ---------- dead writers stay dead and leave the slice alone ---------- *)
-Definition Frozen (st st' : wstate) : Prop :=
-  Dead st' /\ w_data st' = w_data st /\ w_sh st' = w_sh st.
-
-Lemma frozen_trans a b c : Frozen a b -> Frozen b c -> Frozen a c.
-Proof. intros (D1 & E1 & S1) (D2 & E2 & S2). repeat split; auto; congruence. Qed.
-
-Lemma put_simple_dead ctx st c st' b : Dead st -> put_simple ctx st c = Ok (st', b) -> Frozen st st'.
-Proof.
-  intros Hd. unfold put_simple.
-  destruct (layout_step _ _ _ _) as [l' pos] eqn:Hl.
-  pose proof (layout_step_rows _ _ _ _ _ _ Hl) as Hrows.
-  assert (Hd' : forall d, Dead (set_data (set_l st l') d)).
-  { intros d. destruct Hd as [Hw|Hh]; [left; exact Hw|right; cbn; lia]. }
-  assert (Hd'' : Dead (set_l st l')).
-  { destruct Hd as [Hw|Hh]; [left; exact Hw|right; cbn; lia]. }
-  destruct pos as [[r cc]|].
-  - destruct (layout_step_pos _ _ _ _ _ _ _ Hl) as [-> Hcc].
-    assert (Hout : (sh_height (w_sh st) <=? l_r l') || (sh_width (w_sh st) <=? cc) = true).
-    { apply orb_true_iff. destruct Hd as [Hw|Hh]; [right|left]; apply Nat.leb_le; lia. }
-    rewrite Hout. intros [= <- <-]. repeat split; auto.
-  - destruct (_ && _).
-    + intros [= <- <-]. repeat split; auto.
-    + unfold face_fill. rewrite fill_positions_nil by exact Hd. cbn [fold_left].
-      intros [= <- <-]. repeat split; auto.
-Qed.
-
-Lemma put_simple_false ctx st c st' : InBounds (w_sh st) (length (w_data st)) ->
-  put_simple ctx st c = Ok (st', false) -> Dead st'.
-Proof.
-  intros Hb. unfold put_simple.
-  destruct (layout_step _ _ _ _) as [l' pos] eqn:Hl.
-  destruct pos as [[r cc]|].
-  - destruct (layout_step_pos _ _ _ _ _ _ _ Hl) as [-> Hcc].
-    destruct ((sh_height (w_sh st) <=? l_r l') || (sh_width (w_sh st) <=? cc)) eqn:Hout.
-    + intros [= <-]. apply orb_true_iff in Hout as [H|H]; apply Nat.leb_le in H.
-      * right. cbn. exact H.
-      * left. cbn. lia.
-    + apply orb_false_iff in Hout as [H1 H2]. apply Nat.leb_gt in H1, H2.
-      destruct (nth_error _ _) eqn:Hn; [discriminate|].
-      apply nth_error_None in Hn. specialize (Hb _ _ H1 H2). lia.
-  - destruct (_ && _); [discriminate|]. destruct (face_fill _ _ _ _ _ _ _); discriminate.
-Qed.
-
-Lemma put_all_dead ctx cs : forall st st' b, Dead st -> put_all ctx st cs = Ok (st', b) -> Frozen st st'.
-Proof.
-  induction cs as [|c t IH]; intros st st' b Hd; cbn [put_all].
-  - intros [= <- <-]. repeat split; auto.
-  - destruct (put_simple ctx st c) as [[st1 [|]]| | |] eqn:H1; try discriminate.
-    + intros H2. pose proof (put_simple_dead _ _ _ _ _ Hd H1) as F1.
-      eapply frozen_trans; [exact F1|]. eapply IH; [apply F1|exact H2].
-    + intros [= <- <-]. eapply put_simple_dead; eauto.
-Qed.
-
-Lemma put_all_false ctx cs : forall st st', InBounds (w_sh st) (length (w_data st)) ->
-  put_all ctx st cs = Ok (st', false) -> Dead st'.
-Proof.
-  induction cs as [|c t IH]; intros st st' Hb; cbn [put_all]; [discriminate|].
-  destruct (put_simple ctx st c) as [[st1 [|]]| | |] eqn:H1; try discriminate.
-  - apply IH. eapply keeps_inbounds; [eapply put_simple_keeps; exact H1|exact Hb].
-  - intros [= <-]. eapply put_simple_false; eauto.
-Qed.
-
-Lemma put_cell_dead ctx st c st' b : Dead st -> put_cell ctx st c = Ok (st', b) -> Frozen st st'.
-Proof.
-  unfold put_cell. destruct (c_kind c); try apply put_simple_dead.
-  destruct (has_glyphs ctx); [apply put_simple_dead|apply put_all_dead].
-Qed.
-
-Lemma put_cell_false ctx st c st' : InBounds (w_sh st) (length (w_data st)) ->
-  put_cell ctx st c = Ok (st', false) -> Dead st'.
-Proof.
-  unfold put_cell. destruct (c_kind c); try apply put_simple_false.
-  destruct (has_glyphs ctx); [apply put_simple_false|apply put_all_false].
-Qed.
-
-(* ---------- write ---------- *)
-Lemma write_bytes_dead ctx bytes : forall st st' s, Dead st -> write_bytes ctx st bytes = Ok (st', s) -> Frozen st st'.
-Proof.
-  induction bytes as [|b t IH]; intros st st' s Hd; cbn [write_bytes].
-  - intros [= <- <-]. repeat split; auto.
-  - destruct (utf8_feed (w_dec st) b) as [u [|ch|]].
-    + intros H. apply (IH (set_dec st u)) in H; [|exact Hd]. exact H.
-    + unfold put_char.
-      destruct (put_cell ctx (set_dec st u) (mkCell (w_face (set_dec st u)) (KChar ch))) as [[st2 [|]]| | |] eqn:H1;
-        try discriminate.
-      * intros H. pose proof (put_cell_dead _ _ _ _ _ (Hd : Dead (set_dec st u)) H1) as F1.
-        eapply (frozen_trans st st2 st'); [exact F1|]. eapply IH; [apply F1|exact H].
-      * intros [= <- <-]. exact (put_cell_dead _ _ _ _ _ (Hd : Dead (set_dec st u)) H1).
-    + intros [= <- <-]. repeat split; auto.
-Qed.
-
-Lemma write_bytes_full ctx bytes : forall st st', InBounds (w_sh st) (length (w_data st)) ->
-  write_bytes ctx st bytes = Ok (st', WFull) -> Dead st'.
-Proof.
-  induction bytes as [|b t IH]; intros st st' Hb; cbn [write_bytes]; [discriminate|].
-  destruct (utf8_feed (w_dec st) b) as [u [|ch|]].
-  - apply (IH (set_dec st u)). exact Hb.
-  - unfold put_char.
-    destruct (put_cell ctx (set_dec st u) (mkCell (w_face (set_dec st u)) (KChar ch))) as [[st2 [|]]| | |] eqn:H1;
-      try discriminate.
-    + apply IH. eapply keeps_inbounds; [eapply put_cell_keeps; exact H1|exact Hb].
-    + intros [= <-]. eapply put_cell_false; [|exact H1]. exact Hb.
-  - discriminate.
-Qed.
-
-(* one write of b1 ++ b2 continues exactly where a write of b1 stopped, unless that
-   write ended early *)
+(* one write of b1 ++ b2 continues exactly where a write of b1 stopped, unless that write failed *)
 Lemma write_bytes_app ctx b1 b2 : forall st,
   write_bytes ctx st (b1 ++ b2) =
   match write_bytes ctx st b1 with
@@ -166,194 +20,77 @@ Proof.
   induction b1 as [|b t IH]; intros st; cbn [app write_bytes]; [reflexivity|].
   destruct (utf8_feed (w_dec st) b) as [u [|ch|]].
   - apply IH.
-  - destruct (put_char ctx (set_dec st u) ch) as [[st2 [|]]| | |]; auto.
+  - destruct (put_char ctx (set_dec st u) ch) as [[st2 f]| | |]; auto.
   - reflexivity.
 Qed.
 
-Lemma write_chunks_dead ctx chunks : forall st st' f, Dead st -> write_chunks ctx st chunks = Ok (st', f) -> Frozen st st'.
-Proof.
-  induction chunks as [|c t IH]; intros st st' f Hd; cbn [write_chunks].
-  - intros [= <- <-]. repeat split; auto.
-  - destruct (write_bytes ctx st c) as [[st1 s]| | |] eqn:H1; try discriminate.
-    pose proof (write_bytes_dead _ _ _ _ _ Hd H1) as F1.
-    destruct s.
-    + intros H. eapply frozen_trans; [exact F1|]. eapply IH; [apply F1|exact H].
-    + intros H. eapply frozen_trans; [exact F1|]. eapply IH; [apply F1|exact H].
-    + intros [= <- <-]. exact F1.
-Qed.
-
-(* any partition against the single write of the concatenation *)
-Lemma chunks_vs_single ctx chunks : forall st a fa, InBounds (w_sh st) (length (w_data st)) ->
-  write_chunks ctx st chunks = Ok (a, fa) ->
-  exists b sb, write_bytes ctx st (concat chunks) = Ok (b, sb) /\ Sim a b /\ (~ Dead a -> fa = wstat_ok sb).
-Proof.
-  induction chunks as [|c t IH]; intros st a fa Hb; cbn [write_chunks concat].
-  - intros [= <- <-]. exists st, WDone. cbn. split; [reflexivity|]. split; [apply sim_refl|reflexivity].
-  - rewrite write_bytes_app.
-    destruct (write_bytes ctx st c) as [[st1 s]| | |] eqn:H1; try discriminate.
-    pose proof (keeps_inbounds _ _ (write_bytes_keeps _ _ _ _ _ H1) Hb) as Hb1.
-    destruct s.
-    + intros H. exact (IH st1 a fa Hb1 H).
-    + intros H. pose proof (write_bytes_full _ _ _ _ Hb H1) as Hd1.
-      pose proof (write_chunks_dead _ _ _ _ _ Hd1 H) as (Da & Ea & Sa).
-      exists st1, WFull. split; [reflexivity|]. split.
-      * right. repeat split; auto.
-      * intros Hna. tauto.
-    + intros [= <- <-]. exists st1, WErr. split; [reflexivity|]. split; [apply sim_refl|reflexivity].
-Qed.
-
-(* two partitions of the same bytes *)
-Theorem write_chunks_partition ctx st chunks1 chunks2 :
-  InBounds (w_sh st) (length (w_data st)) -> concat chunks1 = concat chunks2 ->
-  exists a fa b fb, write_chunks ctx st chunks1 = Ok (a, fa) /\ write_chunks ctx st chunks2 = Ok (b, fb) /\
-    Sim a b /\ (~ Dead a -> fa = fb).
-Proof.
-  intros Hb Hc.
-  destruct (write_chunks_total ctx chunks1 st Hb) as (a & fa & H1).
-  destruct (write_chunks_total ctx chunks2 st Hb) as (b & fb & H2).
-  exists a, fa, b, fb. split; [exact H1|]. split; [exact H2|].
-  destruct (chunks_vs_single _ _ _ _ _ Hb H1) as (x & sx & Hx & Sax & Fa).
-  destruct (chunks_vs_single _ _ _ _ _ Hb H2) as (y & sy & Hy & Sby & Fb).
-  rewrite Hc in Hx. rewrite Hx in Hy. injection Hy as <- <-.
-  split.
-  - destruct Sax as [->|(Da & Dx & Ea & Sa)]; destruct Sby as [->|(Db & Dx' & Eb & Sb)].
-    + apply sim_refl.
-    + right. repeat split; auto.
-    + right. repeat split; auto.
-    + right. repeat split; auto; congruence.
-  - intros Hna. rewrite (Fa Hna). destruct Sax as [->|(Da & _)]; [|tauto].
-    destruct Sby as [->|(Db & Dx' & _)]; [|tauto]. rewrite (Fb Hna). reflexivity.
-Qed.
-
-(* ---------- the escape-sequence writer is a fold over bytes ---------- *)
-Lemma tty_write_app ctx b1 b2 : forall st ts,
-  tty_write ctx st ts (b1 ++ b2) =
-  match tty_write ctx st ts b1 with
-  | Ok (st1, ts1) => tty_write ctx st1 ts1 b2
-  | other => other
+(* the result of a caller that stops at the first Err, in terms of one write *)
+Definition one_write (ctx : rctx) (st : wstate) (bytes : list N) : outcome (wstate * bool) :=
+  match write_bytes ctx st bytes with
+  | Ok (st', s) => Ok (st', wstat_ok s)
+  | Err e => Err e
+  | Panic s => Panic s
+  | OutOfFuel => OutOfFuel
   end.
+
+Lemma write_chunks_concat ctx chunks : forall st, write_chunks ctx st chunks = one_write ctx st (concat chunks).
 Proof.
-  induction b1 as [|b t IH]; intros st ts; cbn [app tty_write]; [reflexivity|].
-  destruct (tok_feed (cmd_dfa ctx) ts b) as [[ts1 items]| | |]; auto.
-  destruct (tty_apply ctx st items) as [st1| | |]; auto.
+  induction chunks as [|c t IH]; intros st; cbn [write_chunks concat]; [reflexivity|].
+  unfold one_write. rewrite write_bytes_app.
+  destruct (write_bytes ctx st c) as [[st1 [|]]| | |]; try reflexivity.
+  rewrite IH. reflexivity.
 Qed.
 
-Lemma tty_chunks_concat ctx chunks : forall st ts,
-  tty_chunks ctx st ts chunks = tty_write ctx st ts (concat chunks).
+(* two partitions of the same bytes, from any writer state (decoder possibly in the middle
+   of a character): same outcome, state and flag included *)
+Theorem write_chunks_partition ctx st chunks1 chunks2 :
+  concat chunks1 = concat chunks2 -> write_chunks ctx st chunks1 = write_chunks ctx st chunks2.
+Proof. intros E. rewrite !write_chunks_concat, E. reflexivity. Qed.
+
+Theorem tty_chunks_partition ctx st ts chunks1 chunks2 :
+  InBounds (w_sh st) (length (w_data st)) -> TokOk ts -> concat chunks1 = concat chunks2 ->
+  tty_chunks ctx st ts chunks1 = tty_chunks ctx st ts chunks2.
+Proof. intros Hb Hc E. rewrite !tty_chunks_concat by assumption. rewrite E. reflexivity. Qed.
+
+(* ---------- whole client programs ---------- *)
+Lemma wop_step_merge ctx st o : InBounds (w_sh st) (length (w_data st)) ->
+  wop_step ctx st o = wop_step ctx st (merge_op o).
 Proof.
-  induction chunks as [|c t IH]; intros st ts; cbn [tty_chunks concat]; [reflexivity|].
-  rewrite tty_write_app. destruct (tty_write ctx st ts c) as [[st1 ts1]| | |]; auto.
+  intros Hb. destruct o; cbn [merge_op wop_step]; try reflexivity.
+  - apply write_chunks_partition. cbn. now rewrite app_nil_r.
+  - rewrite (write_chunks_partition ctx (set_dec st u0) chunks [concat chunks]); [reflexivity|].
+    cbn. now rewrite app_nil_r.
+  - rewrite (tty_chunks_partition ctx st (t0 (cmd_dfa ctx)) chunks [concat chunks] Hb (t0_tokok _)); [reflexivity|].
+    cbn. now rewrite app_nil_r.
 Qed.
 
-Lemma tty_apply_dead ctx items : forall st st', Dead st -> tty_apply ctx st items = Ok st' -> Frozen st st'.
+Lemma wops_run_merge ctx ops : forall st, InBounds (w_sh st) (length (w_data st)) ->
+  wops_run ctx st ops = wops_run ctx st (map merge_op ops).
 Proof.
-  induction items as [|it t IH]; intros st st' Hd; cbn [tty_apply].
-  - intros [= <-]. repeat split; auto.
-  - destruct it as [ch|seq|raw].
-    + destruct (put_char ctx st ch) as [[st1 f]| | |] eqn:H1; try discriminate.
-      intros H. pose proof (put_cell_dead _ _ _ _ _ Hd H1) as F1.
-      eapply frozen_trans; [exact F1|]. eapply IH; [apply F1|exact H].
-    + intros H. apply (IH (set_face st (sgr_lookup (sgr_tab ctx) seq (w_face st))) st' Hd H).
-    + apply IH, Hd.
+  induction ops as [|o t IH]; intros st Hb; cbn [map wops_run]; [reflexivity|].
+  rewrite <- wop_step_merge by exact Hb.
+  destruct (wop_step ctx st o) as [[st1 b]| | |] eqn:H1; try reflexivity.
+  rewrite IH; [reflexivity|]. eapply keeps_inbounds; [eapply wop_step_keeps; exact H1|exact Hb].
 Qed.
 
-Lemma tty_write_dead ctx bytes : forall st ts st' ts', Dead st -> tty_write ctx st ts bytes = Ok (st', ts') -> Frozen st st'.
-Proof.
-  induction bytes as [|b t IH]; intros st ts st' ts' Hd; cbn [tty_write].
-  - intros [= <- <-]. repeat split; auto.
-  - destruct (tok_feed (cmd_dfa ctx) ts b) as [[ts1 items]| | |]; try discriminate.
-    destruct (tty_apply ctx st items) as [st1| | |] eqn:H1; try discriminate.
-    intros H. pose proof (tty_apply_dead _ _ _ _ Hd H1) as F1.
-    eapply frozen_trans; [exact F1|]. eapply IH; [apply F1|exact H].
-Qed.
+(* two programs that differ only in how the bytes of each write are split across calls *)
+Theorem program_chunking ctx st ops1 ops2 :
+  InBounds (w_sh st) (length (w_data st)) -> map merge_op ops1 = map merge_op ops2 ->
+  wops_run ctx st ops1 = wops_run ctx st ops2.
+Proof. intros Hb E. rewrite (wops_run_merge ctx ops1 st Hb), (wops_run_merge ctx ops2 st Hb), E. reflexivity. Qed.
 
-(* ---------- whole client programs: partitions of every write may differ ---------- *)
-Lemma wop_step_dead ctx st o st' b : Dead st -> wop_step ctx st o = Ok (st', b) -> Frozen st st'.
-Proof.
-  intros Hd. destruct o; cbn [wop_step].
-  - apply put_cell_dead. exact Hd.
-  - apply put_cell_dead. exact Hd.
-  - intros [= <- <-]. repeat split; auto.
-  - intros [= <- <-]. repeat split; auto.
-  - apply write_chunks_dead. exact Hd.
-  - destruct (write_chunks ctx (set_dec st u0) chunks) as [[st1 f]| | |] eqn:H1; try discriminate.
-    intros [= <- <-]. exact (write_chunks_dead _ _ _ _ _ (Hd : Dead (set_dec st u0)) H1).
-  - rewrite tty_chunks_concat.
-    destruct (tty_write ctx st (t0 (cmd_dfa ctx)) (concat chunks)) as [[st1 ts1]| | |] eqn:H1; try discriminate.
-    intros [= <- <-]. eapply tty_write_dead; [exact Hd|exact H1].
-Qed.
-
-Lemma wops_run_dead ctx ops : forall st st' bs, Dead st -> wops_run ctx st ops = Ok (st', bs) -> Frozen st st'.
-Proof.
-  induction ops as [|o t IH]; intros st st' bs Hd; cbn [wops_run].
-  - intros [= <- <-]. repeat split; auto.
-  - destruct (wop_step ctx st o) as [[st1 b]| | |] eqn:H1; try discriminate.
-    destruct (wops_run ctx st1 t) as [[st2 bs2]| | |] eqn:H2; try discriminate.
-    intros [= <- <-]. pose proof (wop_step_dead _ _ _ _ _ Hd H1) as F1.
-    eapply frozen_trans; [exact F1|]. eapply IH; [apply F1|exact H2].
-Qed.
-
-Lemma frozen_sim a b a' b' : Sim a b -> Dead a -> Frozen a a' -> Frozen b b' -> Sim a' b'.
-Proof.
-  intros S Da (Da' & Ea & Sa) (Db' & Eb & Sb). right. repeat split; auto.
-  - rewrite Ea, Eb. apply sim_data, S.
-  - rewrite Sa, Sb. destruct S as [->|(_ & _ & _ & ->)]; reflexivity.
-Qed.
-
-Lemma sim_dead a b : Sim a b -> Dead a -> Dead b.
-Proof. intros [->|(_ & H & _)]; auto. Qed.
-
-Lemma sim_set_dec a b u : Sim a b -> Sim (set_dec a u) (set_dec b u).
-Proof. intros [->|(Da & Db & E & Sh)]; [apply sim_refl|]. right. repeat split; auto. Qed.
-
-(* one step of two programs that differ only in how writes are partitioned *)
-Lemma wop_step_sim ctx o1 o2 : merge_op o1 = merge_op o2 -> forall s1 s2 a fa b fb,
-  InBounds (w_sh s1) (length (w_data s1)) -> Sim s1 s2 ->
-  wop_step ctx s1 o1 = Ok (a, fa) -> wop_step ctx s2 o2 = Ok (b, fb) ->
-  Sim a b /\ (~ Dead a -> fa = fb).
-Proof.
-  intros Hm s1 s2 a fa b fb Hb S H1 H2.
-  destruct S as [<-|S].
-  2:{ destruct S as (D1 & D2 & E & Sh). split.
-      - eapply (frozen_sim s1 s2); [right; repeat split; auto|exact D1| |].
-        + eapply wop_step_dead; eauto.
-        + eapply wop_step_dead; eauto.
-      - intros Hna. exfalso. apply Hna. exact (proj1 (wop_step_dead _ _ _ _ _ D1 H1)). }
-  destruct o1, o2; cbn [merge_op] in Hm; try discriminate;
-    try (injection Hm as <-; rewrite H1 in H2; injection H2 as <- <-; split; [apply sim_refl|reflexivity]).
-  - (* OWrite / OWrite *)
-    injection Hm as Hc. cbn [wop_step] in H1, H2.
-    destruct (write_chunks_partition ctx s1 chunks chunks0 Hb Hc) as (x & fx & y & fy & Hx & Hy & Sxy & Al).
-    rewrite Hx in H1. rewrite Hy in H2. injection H1 as <- <-. injection H2 as <- <-. split; assumption.
-  - (* OWriteU / OWriteU *)
-    injection Hm as Hc. cbn [wop_step] in H1, H2.
-    destruct (write_chunks_partition ctx (set_dec s1 u0) chunks chunks0 Hb Hc) as (x & fx & y & fy & Hx & Hy & Sxy & Al).
-    rewrite Hx in H1. rewrite Hy in H2. injection H1 as <- <-. injection H2 as <- <-. split.
-    + apply sim_set_dec, Sxy.
-    + exact Al.
-  - (* OWriteT / OWriteT *)
-    injection Hm as Hc. cbn [wop_step] in H1, H2. rewrite !tty_chunks_concat in H1, H2. rewrite Hc in H1.
-    rewrite H1 in H2. injection H2 as <- <-. split; [apply sim_refl|reflexivity].
-Qed.
-
-Theorem program_chunking ctx ops1 : forall ops2 s1 s2,
-  InBounds (w_sh s1) (length (w_data s1)) -> InBounds (w_sh s2) (length (w_data s2)) -> Sim s1 s2 ->
-  map merge_op ops1 = map merge_op ops2 ->
-  exists a fa b fb, wops_run ctx s1 ops1 = Ok (a, fa) /\ wops_run ctx s2 ops2 = Ok (b, fb) /\
-    Sim a b /\ (~ Dead a -> fa = fb).
-Proof.
-  induction ops1 as [|o1 t1 IH]; intros [|o2 t2] s1 s2 Hb1 Hb2 S Hm; cbn [map] in Hm; try discriminate.
-  - exists s1, [], s2, []. cbn. repeat split; auto.
-  - injection Hm as Ho Ht. cbn [wops_run].
-    destruct (wop_step_total ctx s1 o1 Hb1) as (x & fx & Hx).
-    destruct (wop_step_total ctx s2 o2 Hb2) as (y & fy & Hy).
-    rewrite Hx, Hy.
-    destruct (wop_step_sim ctx o1 o2 Ho _ _ _ _ _ _ Hb1 S Hx Hy) as [Sxy Fxy].
-    pose proof (keeps_inbounds _ _ (wop_step_keeps _ _ _ _ _ Hx) Hb1) as Hbx.
-    pose proof (keeps_inbounds _ _ (wop_step_keeps _ _ _ _ _ Hy) Hb2) as Hby.
-    destruct (IH t2 x y Hbx Hby Sxy Ht) as (a & fa & b & fb & Ha & Hb' & Sab & Fab).
-    rewrite Ha, Hb'. exists a, (fx :: fa), b, (fy :: fb). repeat split; auto.
-    intros Hna.
-    assert (Hnx : ~ Dead x). { intros Dx. apply Hna. exact (proj1 (wops_run_dead _ _ _ _ _ Dx Ha)). }
-    rewrite (Fxy Hnx), (Fab Hna). reflexivity.
-Qed.
+(* ---------- a caller that carries on after an Err ---------- *)
+(* io::Write gives no way to learn how much of a buffer was consumed before an Err; a caller that
+   ignores the error and issues the next write anyway sees partition-dependent results: the
+   rest of the failing buffer is lost, the next buffer is not *)
+Fixpoint write_chunks_ignoring_errors (ctx : rctx) (st : wstate) (chunks : list (list N)) : outcome wstate :=
+  match chunks with
+  | [] => Ok st
+  | c :: rest =>
+      match write_bytes ctx st c with
+      | Ok (st', _) => write_chunks_ignoring_errors ctx st' rest
+      | Err e => Err e
+      | Panic s => Panic s
+      | OutOfFuel => OutOfFuel
+      end
+  end.
